@@ -291,12 +291,32 @@ struct Caller
   std::string kind;
 };
 
-// kinds: empty, marker, local-span, span+marker, invalid-span
-inline Caller make_caller(vf::Rng &r, int force = -1)
+// kinds: empty, marker, local-span, span+marker, invalid-span, twin-local-span (round trips only: the context
+// handed to Extract already carries a LOCAL span with the ids and flags the header encodes - a loop-back or an
+// echoing peer; the header must still be installed as a remote context with its own trace state)
+inline Caller make_caller(vf::Rng &r, int force = -1, const trace_api::SpanContext *twin = nullptr)
 {
   Caller c;
   unsigned k = force >= 0 ? static_cast<unsigned>(force) : static_cast<unsigned>(r.below(10));
   context_api::Context ctx;
+  if (twin != nullptr && force < 0 && vf::mix(r.next(), 0x7717) % 4 == 0)
+  {
+    c.kind     = "twin-local-span";
+    c.has_span = true;
+    if (r.coin())
+    {
+      c.has_marker = true;
+      c.marker     = static_cast<int64_t>(r.next() >> 1);
+      ctx          = ctx.SetValue(kMarkerKey, c.marker);
+    }
+    c.span = nostd::shared_ptr<trace_api::Span>(new trace_api::DefaultSpan(
+        trace_api::SpanContext(twin->trace_id(), twin->span_id(), twin->trace_flags(), false)));
+    ctx      = ctx.SetValue(trace_api::kSpanKey, c.span);
+    c.ctx    = ctx;
+    c.before = ctx;
+    vf::report().count("callers_twin_local_span");
+    return c;
+  }
   if (k == 0)
   {
     c.kind = "empty";
